@@ -130,6 +130,10 @@ func c14BuildRules(t *testing.T) []*c14Rule {
 		{"quota-on,ratio-1.20", "cpuset", true, "1.20", true, "-", "-"},
 		{"quota-on,ratio-1.50", "cpuset", true, "1.50", true, "-", "-"},
 		{"quota-on,ratio-2.00", "cpuset", true, "2.00", true, "-", "-"},
+		// two-digit ratios whose product by 100 is not an integer in float64 (1.15*100 = 114.99999999999999, 2.30*100 =
+		// 229.99999999999997): a division carried out on truncated integer percents divides by a ratio 0.01 too small (seed C14-7)
+		{"quota-on,ratio-1.15", "cpuset", true, "1.15", true, "-", "-"},
+		{"quota-on,ratio-2.30", "cpuset", true, "2.30", true, "-", "-"},
 		{"quota-off,ratio-missing", "cfsQuota", true, "", false, "-", "-"},
 		{"quota-off,ratio-2.00", "cfsQuota", true, "2.00", false, "-", "-"},
 		// the configuration changed while the agent ran: what counts is the configuration now
